@@ -593,6 +593,15 @@ macro_rules! declare_storage_n {
                             entities[dense_index_usize].version(),
                             self.slots.slice(self.capacity())[slot_index_usize].version());
 
+                        // NOTE: Advancing a version may panic on overflow. Do this first, before
+                        // anything is changed, so that such a panic can't leave us half-destroyed.
+                        let next_version = self.version.next();
+                        // SAFETY: We know that the slot storage is valid up to our capacity.
+                        let next_slot_version = self.slots.slice(self.capacity())
+                            .get_unchecked(slot_index_usize) // SAFETY: See declaration.
+                            .version()
+                            .next();
+
                         #[cfg(feature = "events")]
                         {
                             self.destroyed.push(*entities.get_unchecked(dense_index_usize));
@@ -623,10 +632,10 @@ macro_rules! declare_storage_n {
                         // Return the target slot to the free list
                         slots
                             .get_unchecked_mut(slot_index_usize) // SAFETY: See declaration.
-                            .release(self.free_head);
+                            .release(self.free_head, next_slot_version);
 
                         // Advance this storage's overall version (for add/removes).
-                        self.version = self.version.next();
+                        self.version = next_version;
 
                         result
                     };
